@@ -84,6 +84,21 @@ fn gen_mask(src: &mut Src) -> Option<LefMask> {
 }
 fn gen_string_literal(src: &mut Src) -> String {
     const CH: &[u8] = b"abc XYZ019_;:#.,()+-=/";
+    if src.prob(1, 160) {
+        // a long literal (a description, a net expression): a few thousand characters of blank-separated words,
+        // longer than any line-length limit a writer might assume
+        let total = *src.pick(&[1100usize, 2040, 2049, 4100, 9000]) + src.usize_in(0, 9);
+        let mut s = String::from("\"");
+        while s.len() < total {
+            let w = src.usize_in(1, 9);
+            for _ in 0..w {
+                s.push(CH[src.index(3)] as char);
+            }
+            s.push_str(*src.pick(&[" ", " ", "  ", " ; ", " # "]));
+        }
+        s.push('"');
+        return s;
+    }
     let n = src.usize_in(0, 8);
     let mut s = String::from("\"");
     for _ in 0..n {
@@ -121,6 +136,15 @@ pub fn gen_geometry(src: &mut Src) -> LefGeometry {
     } else {
         LefGeometry::Shape(shape)
     }
+}
+/// The same layer may be named by several LAYER statements of one port or obstruction block (each keeps its own entry)
+fn repeat_layer_names(src: &mut Src, mut v: Vec<LefLayerGeometries>) -> Vec<LefLayerGeometries> {
+    for i in 1..v.len() {
+        if src.prob(1, 4) {
+            v[i].layer_name = v[src.index(i)].layer_name.clone();
+        }
+    }
+    v
 }
 pub fn gen_layer_geoms(src: &mut Src) -> LefLayerGeometries {
     let ng = src.usize_in(0, 4);
@@ -165,7 +189,7 @@ pub fn gen_pin(src: &mut Src, o: &LefGenOpts) -> LefPin {
         ports: (0..np)
             .map(|_| {
                 let nl = src.usize_in(0, 2);
-                LefPort { class: opt(src, 1, 3, |s| *s.pick(&[LefPortClass::None, LefPortClass::Core, LefPortClass::Bump])), layers: (0..nl).map(|_| gen_layer_geoms(src)).collect() }
+                LefPort { class: opt(src, 1, 3, |s| *s.pick(&[LefPortClass::None, LefPortClass::Core, LefPortClass::Bump])), layers: { let v = (0..nl).map(|_| gen_layer_geoms(src)).collect(); repeat_layer_names(src, v) } }
             })
             .collect(),
         direction: opt(src, 1, 2, |s| match s.below(5) {
@@ -205,7 +229,7 @@ pub fn gen_macro(src: &mut Src, o: &LefGenOpts, version_le_5p4: bool) -> LefMacr
     LefMacro {
         name: gen_name(src),
         pins: (0..npins).map(|_| gen_pin(src, o)).collect(),
-        obs: (0..nobs).map(|_| gen_layer_geoms(src)).collect(),
+        obs: { let v = (0..nobs).map(|_| gen_layer_geoms(src)).collect(); repeat_layer_names(src, v) },
         class,
         foreign: opt(src, 1, 3, |s| {
             let pt = opt(s, 1, 2, gen_pt);
@@ -260,16 +284,15 @@ fn gen_via_shape(src: &mut Src) -> LefViaShape {
 }
 pub fn gen_via(src: &mut Src) -> LefViaDef {
     let data = if src.bool() {
-        let nl = src.usize_in(0, 3);
-        LefViaDefData::Fixed(LefFixedViaDef {
-            resistance_ohms: opt(src, 1, 3, gen_pos_dec),
-            layers: (0..nl)
-                .map(|_| {
-                    let ns = src.usize_in(0, 3);
-                    LefViaLayerGeometries { layer_name: gen_name(src), shapes: (0..ns).map(|_| gen_via_shape(src)).collect() }
-                })
-                .collect(),
-        })
+        let nl = src.usize_in(0, 4);
+        let mut layers: Vec<LefViaLayerGeometries> = vec![];
+        for _ in 0..nl {
+            let ns = src.usize_in(0, 3);
+            // the same layer may be named again (one block per mask colour), straight away or later
+            let layer_name = if !layers.is_empty() && src.prob(1, 3) { layers[src.index(layers.len())].layer_name.clone() } else { gen_name(src) };
+            layers.push(LefViaLayerGeometries { layer_name, shapes: (0..ns).map(|_| gen_via_shape(src)).collect() });
+        }
+        LefViaDefData::Fixed(LefFixedViaDef { resistance_ohms: opt(src, 1, 3, gen_pos_dec), layers })
     } else {
         // every field distinct so that swaps are visible
         let mut k = 0i64;
@@ -319,7 +342,8 @@ fn gen_propdef(src: &mut Src) -> LefPropertyDefinition {
     }
 }
 fn gen_extension(src: &mut Src) -> LefExtension {
-    let n = src.usize_in(0, 6);
+    // now and then a block of several hundred tokens (more than 2 kB)
+    let n = if src.prob(1, 40) { src.usize_in(300, 700) } else { src.usize_in(0, 6) };
     let mut data = String::new();
     for _ in 0..n {
         let t = match src.below(4) {
